@@ -106,6 +106,19 @@ pub trait Prop: Sync {
     fn shrink_candidates(&self, _c: &Self::Case) -> Vec<Self::Case> {
         vec![]
     }
+    /// Classes that describe the generated case itself (what the generator produced), counted for
+    /// passing cases next to the classes the judge reports.
+    fn shape(&self, _c: &Self::Case) -> Vec<String> {
+        vec![]
+    }
+}
+
+fn judge_counted<P: Prop>(p: &P, c: &P::Case) -> Outcome {
+    let mut o = p.judge(c);
+    if matches!(o.verdict, Verdict::Pass) {
+        o.classes.extend(p.shape(c));
+    }
+    o
 }
 
 #[derive(Clone, Debug)]
@@ -294,7 +307,7 @@ impl Ctx {
 
         // 1. fixed cases
         for case in p.fixed_cases() {
-            let o = p.judge(&case);
+            let o = judge_counted(p, &case);
             if let Some((k, d)) = absorb(&mut st, &case, &o, &mut self.distinct) {
                 failure = Some((case, k, d, None));
                 break;
@@ -311,7 +324,7 @@ impl Ctx {
                     if chunk.is_empty() {
                         break;
                     }
-                    let outs: Vec<Outcome> = chunk.par_iter().map(|c| p.judge(c)).collect();
+                    let outs: Vec<Outcome> = chunk.par_iter().map(|c| judge_counted(p, c)).collect();
                     for (c, o) in chunk.iter().zip(outs.iter()) {
                         if let Some((k, d)) = absorb(&mut st, c, o, &mut self.distinct) {
                             failure = Some((c.clone(), k, d, None));
@@ -350,7 +363,7 @@ impl Ctx {
                         p.gen(&mut t)
                     })
                     .collect();
-                let outs: Vec<Outcome> = cases.par_iter().map(|c| p.judge(c)).collect();
+                let outs: Vec<Outcome> = cases.par_iter().map(|c| judge_counted(p, c)).collect();
                 for (i, (c, o)) in cases.iter().zip(outs.iter()).enumerate() {
                     if let Some((k, _d)) = absorb(&mut st, c, o, &mut self.distinct) {
                         // shrink with proptest's value tree
@@ -588,6 +601,9 @@ macro_rules! prog_shrink {
                     n
                 })
                 .collect()
+        }
+        fn shape(&self, c: &Self::Case) -> Vec<String> {
+            $crate::model::shape_classes(&c.prog)
         }
     };
 }
